@@ -15,3 +15,13 @@ package main
 //@ func (*serverApp).standardValidator
 //@   on return assert allow-list: result ==> (len(a.conf.Sources) > 0 ==> called(regexp.MatchString) && lastret(regexp.MatchString, 0) && lastret(regexp.MatchString, 1) == nil && lastarg(regexp.MatchString, 1) == source && exists(k, 0, len(a.conf.Sources), a.conf.Sources[k] == source)) && (len(a.conf.Keys) > 0 ==> exists(k, 0, len(a.conf.Keys), a.conf.Keys[k] == key))
 //@   on return assert listed-is-accepted: (len(a.conf.Sources) == 0 || (called(regexp.MatchString) && lastret(regexp.MatchString, 0) && lastret(regexp.MatchString, 1) == nil && exists(k, 0, len(a.conf.Sources), a.conf.Sources[k] == source))) && (len(a.conf.Keys) == 0 || exists(k, 0, len(a.conf.Keys), a.conf.Keys[k] == key)) ==> result
+
+// ---------------------------------------------------------------- per-source roots (C14)
+
+// newStage: the three directories a source gets are the configured roots joined with the source
+// name in which every path separator has been replaced - never with the name as it was sent.
+//@ func (*serverApp).init$3
+//@   before call stage.New assert roots-from-escaped-source: called(strings.ReplaceAll) && lastarg(strings.ReplaceAll, 0) == source && lastarg(strings.ReplaceAll, 1) == old(pathSep) && lastarg(strings.ReplaceAll, 2) == old(pathSepRepl) && arg0 == source && arg1 == pathjoin(old(dirs.Stage), lastret(strings.ReplaceAll, 0)) && arg2 == pathjoin(old(dirs.Final), lastret(strings.ReplaceAll, 0))
+//@   before call log.NewFileIO assert log-root-from-escaped-source: called(strings.ReplaceAll) && lastarg(strings.ReplaceAll, 0) == source && lastarg(strings.ReplaceAll, 1) == pathSep && arg0 == pathjoin(dirs.LogIn, lastret(strings.ReplaceAll, 0))
+//@   on return assert one-escape: ncalls(strings.ReplaceAll) == 1 && ncalls(stage.New) == 1 && ncalls(log.NewFileIO) == 1
+//@   modifies everything
